@@ -217,7 +217,8 @@ class Scenario:
             nt = loop.next_timer()
             return loop.quiescent() and nt is not None and nt > loop.time()
         if c == "w":
-            return loop.quiescent() and loop.next_timer() is not None
+            # (idle_wait: time may also pass while nothing at all is pending -- gaps between arrivals)
+            return loop.quiescent() and (loop.next_timer() is not None or bool(self.cfg.get("idle_wait")))
         return False
 
     def drain(self):
@@ -357,7 +358,8 @@ def main():
             for cfg, sched in json.load(f):
                 runs.append(run(cfg, sched))
     for cfg in cfgs:
-        scheds = enumerate_schedules(cfg, a.depth, a.limit, rng) + random_schedules(cfg, a.random, a.maxlen, rng)
+        extra = [list(x.split()) for x in cfg.pop("schedules", [])]       # schedules the engine asks for by name
+        scheds = extra + enumerate_schedules(cfg, a.depth, a.limit, rng) + random_schedules(cfg, a.random, a.maxlen, rng)
         seen = set()
         for s in scheds:
             key = " ".join(s)
